@@ -483,12 +483,12 @@ pub fn check_time(case: &LoopCase, out: &LoopOutcome) -> Vec<Finding> {
         let stop = elapsed >= max || (!more_samples && elapsed >= min);
         if k < last && stop {
             let why = if elapsed >= max { "max_time was reached" } else { "enough samples were recorded and min_time had passed" };
-            finding(&mut f, if elapsed >= max && tuned && threshold.is_none() { "C19" } else { "C04" }, if elapsed >= max { "ran-past-max" } else { "ran-past-min" },
+            finding(&mut f, prop, if elapsed >= max { "ran-past-max" } else { "ran-past-min" },
                 format!("{}: sampling continued after round {k} although {why} (elapsed {elapsed} ps, min {min}, max {max}, recorded {recorded}/{n}, skip_ext_time {skip}); {} rounds ran", case.describe(), rounds.len()));
             return f;
         }
         if k == last && !stop {
-            finding(&mut f, "C04", if more_samples { "stopped-before-count" } else { "stopped-before-min" },
+            finding(&mut f, prop, if more_samples { "stopped-before-count" } else { "stopped-before-min" },
                 format!("{}: sampling stopped after round {k} although the rule says continue (elapsed {elapsed} ps, min {min}, max {max}, recorded {recorded}/{n}, skip_ext_time {skip})", case.describe()));
             return f;
         }
